@@ -57,6 +57,37 @@ def check(run, prog, tier):
     def handler_calls(p):
         return [e for e in p.events if e.kind == "call" and e.fterm is not None and e.fterm[0] == "call" and e.fterm[1] == ("attr", ("attr", me, "methods"), "get")]
 
+    # further per-method tables the decision may consult: what they hold for a method registered the documented way -
+    # register_method(id, handler), every other parameter at its default - is read from register_method itself; an id
+    # that was never registered has no entry.  (A table somebody else writes has unknown content.)
+    scan0 = Scan(prog)
+    ID_, H_ = ("var", "$registered-id"), ("var", "$registered-handler")
+    table_writers = {}
+    for fi_, _r, e_ in scan0.all():
+        tgt = None
+        if e_.kind == "store" and e_.target is not None and e_.target[0] == "item" and e_.target[1][0] == "attr" and e_.target[1][1][0] == "self" \
+                and e_.target[1][1][1] == SVC:
+            tgt = e_.target[1][2]
+        elif e_.kind == "call" and e_.attrname in ("pop", "clear", "update", "setdefault", "popitem") and e_.recv is not None and e_.recv[0] == "attr" \
+                and e_.recv[1] == me:
+            tgt = e_.recv[2]
+        if tgt is not None and fi_.name != "__init__":
+            table_writers.setdefault(tgt, set()).add(fi_.qual)
+    tables = {}
+    for p_ in engine(prog, InlineOnly(names=(), pred=own, props=False, max_depth=3)).paths(reg, recv=SVC, args=(ID_, H_)):
+        if not p_.returns() and p_.outcome[0] != "fall":
+            continue
+        for e_ in p_.events:
+            if e_.kind == "store" and e_.target is not None and e_.target[0] == "item" and e_.target[2] == ID_ and e_.target[1][0] == "attr" \
+                    and e_.target[1][1] == me and e_.target[1][2] != "methods":
+                tables[e_.target[1][2]] = e_.value
+
+    def table_lookup(tm):
+        """(attribute, key, default) when tm is self.<table>.get(key[, default]) / self.<table>[key] on a per-method table"""
+        if tm[0] == "call" and tm[1][0] == "attr" and tm[1][2] == "get" and tm[1][1][0] == "attr" and tm[1][1][1] == me and tm[1][1][2] != "methods" and tm[2]:
+            return tm[1][1][2], tm[2][0], (tm[2][1] if len(tm[2]) > 1 else const(None))
+        return None
+
     failures = {}
     cases = 0
     # state of the endpoint that the decision consults besides the documented inputs (e.g. a "warned once" flag):
@@ -126,6 +157,11 @@ def check(run, prog, tier):
                 return HANDLER if known else None
             if tm[0] == "call" and tm[1][0] == "call" and tm[1][1] == ("attr", ("attr", me, "methods"), "get"):
                 return hpay if hres == "bytes" else None
+            tl = table_lookup(tm)
+            if tl is not None and table_writers.get(tl[0], set()) <= {reg.qual} and eval_term(tl[1], leaf) == vals["method_id"]:
+                if known and tl[0] in tables:
+                    return eval_term(tables[tl[0]], lambda t_: vals["method_id"] if t_ == ID_ else (HANDLER if t_ == H_ else leaf(t_)))
+                return eval_term(tl[2], leaf)
             raise AnalysisError(f"{mr.qual}: decision depends on {show(tm)}")
 
         hits = []
